@@ -4,7 +4,9 @@
 // Model checking by bounded exhaustive enumeration of a configuration space:
 // every assignment from a covering set of (owner, group, mode) to the <= 3
 // nodes on the path(s) of a call x acting users x umasks x all path-taking
-// calls (and the File methods on a handle opened by the acting user). Each
+// calls (and the File methods on a handle opened by the acting user; OpenFile
+// with the full product of access mode x O_TRUNC x O_APPEND x O_CREATE[|O_EXCL]
+// on a file, a directory and a missing name, space.go openFlagSets). Each
 // configuration is built by a short administrator history on a fresh real
 // MemFS and, identically, on a tmpfs scratch directory at the same absolute
 // path; the call under test is executed on both sides - on the kernel side
@@ -478,6 +480,7 @@ func main() {
 			"chmod with S_ISGID by an owner who is not in the file's group: the kernel silently clears the bit, the property does not name that rule; a tree difference consisting only of S_ISGID present on the avfs side after Chmod/File.Chmod is masked (masked_chmod_setgid_cleared_by_kernel)",
 			"os.RemoveAll of a non-empty directory opens the parent directory for reading after the plain remove failed; a refusal whose only cause is missing read permission on the parent is an artefact of Go's strategy and is not compared (skipped_go_removeall_parent_read_artefact)",
 			"umask is varied for creating calls only; other calls run with umask 022",
+			"open flags: the flag word of OpenFile is the full product of access mode {O_RDONLY, O_WRONLY, O_RDWR}, O_TRUNC, O_APPEND and {none, O_CREATE, O_CREATE|O_EXCL} (36 sets; shapes Fo = existing file, Do = existing empty directory, M = missing name; perm 0666 and umask 022 for the creating sets, the sets RDWR|CREATE and WRONLY|CREATE|EXCL additionally over 4 perms x 5 umasks on a missing name). In Fo / Do the directories above the operand take the 8 rwx values of the applicable class without special bits (their full domains are enumerated in F / D / M with the usual flag sets). O_EXCL without O_CREATE (undefined by open(2)), access mode 3, O_SYNC / O_NONBLOCK / O_DIRECT ... are not tried; what a handle opened with an unusual flag set can then do (Write on a handle from O_RDONLY|O_TRUNC) is not a permission decision and belongs to C01/C02; the File.* calls use handles from RDONLY / WRONLY / RDWR (and two creating sets) only",
 			"chown arguments are taken from {-1, the actor's uid, one other uid} x {-1, the actor's group, the other group} (9 forms, all on Chown of a file; on Lchown, File.Chown and on directories quick uses a subset that always holds the form user refused + group allowed, thorough all 9 on Lchown and File.Chown); uids/gids unknown to the identity manager are not tried",
 			"the kernel tree is not read again after a refused single system call (a refused chown(2), chmod(2), open(2)... changes nothing in the kernel); the MemFS tree is read again after every call",
 			"modification times are not compared (Chtimes: allowed/refused only); size and link count of symbolic links are not compared (C01/C04)",
@@ -500,10 +503,10 @@ func main() {
 
 func describeBound(tier string, perPhase map[string][2]int) string {
 	desc := map[string]string{
-		"A": "A: depth<=2 + two-directory Rename/Link + Rename/Link onto an existing file, 16-mode covering set (8 rwx values of the applicable class x other classes 000/777), owner in {actor, other user, root} x group in {own, other}, parent special in {none, sticky, setgid}, creating calls x 4 perms x 5 umasks; Chown / Lchown / File.Chown (file and directory handle) argument forms: one field, both fields acceptable, and both fields with exactly one acceptable on its own in both orders (user refused + group allowed, user allowed + group refused) or none, on nodes of the actor's own and of the other group",
-		"B": "B: depth 3, grandparent 16 modes, parent and leaf 8 modes",
-		"C": "C: depth<=2, full covering set (32 modes, 6 owner/group pairs, special bits on every directory), all 9 chown argument forms on Chown, Lchown and File.Chown",
-		"D": "D: depth 3 for a user who owns nothing, grandparent 8 modes x special bits {none, sticky, setgid}, parent and leaf 8 modes",
+		"A": "A: depth<=2 + two-directory Rename/Link + Rename/Link onto an existing file, 16-mode covering set (8 rwx values of the applicable class x other classes 000/777), owner in {actor, other user, root} x group in {own, other}, parent special in {none, sticky, setgid}, creating calls x 4 perms x 5 umasks; Chown / Lchown / File.Chown (file and directory handle) argument forms: one field, both fields acceptable, and both fields with exactly one acceptable on its own in both orders (user refused + group allowed, user allowed + group refused) or none, on nodes of the actor's own and of the other group; open-flag dimension (shapes Fo, Do, M): OpenFile with the full product access mode {RDONLY, WRONLY, RDWR} x {-, TRUNC} x {-, APPEND} x {-, CREATE, CREATE|EXCL} (36 flag sets) on an existing file (full leaf domain), an existing directory and a missing name, containing directories at the 8-value set without special bits",
+		"B": "B: depth 3, grandparent 16 modes, parent and leaf 8 modes; the 36 open flag sets on file, directory and missing name at depth 3 (directories above at the 8-value set)",
+		"C": "C: depth<=2, full covering set (32 modes, 6 owner/group pairs, special bits on every directory), all 9 chown argument forms on Chown, Lchown and File.Chown; the 36 open flag sets on a file with the full covering set (32 modes x 6 owner/group pairs), on a directory and on a missing name",
+		"D": "D: depth 3 for a user who owns nothing, grandparent 8 modes x special bits {none, sticky, setgid}, parent and leaf 8 modes; the 36 open flag sets at depth 3 for that user (directories without special bits)",
 	}
 
 	var ph []string
